@@ -15,6 +15,8 @@ L_RedVars == << <<"j", BintD(3)>>, <<"m", BintD(4)>>, <<"n", BintD(7)>> >>
 L_SubVals == <<
   N(2, 3), N(5, 7),
   SliceT("s", 0, 3, 2, 3), SliceT("m", 1, 4, 2, 4),
-  SliceT("s", 2, 7, 2, 7), SliceT("n", 3, 6, 1, 7) >>
+  SliceT("s", 2, 7, 2, 7), SliceT("n", 3, 6, 1, 7),
+  \* Cat of two j-parts has size 6, of two m-parts size 8: slices (with another name) and a number
+  SliceT("s", 1, 6, 2, 6), SliceT("s", 2, 8, 3, 8), N(4, 6) >>
 L_NewNames == <<"n">>
 =============================================================================
